@@ -28,5 +28,8 @@ DevNonInduced == {"NonInducedMatch"}
 DevWildcard  == {"WildcardIgnored"}
 DevStaleAttr == {"StaleAttributes"}
 DevStaleAdj  == {"StaleAdjacency"}
+DevPerHandle == {"PerHandleCache"}
+HOne == {"obj"}
+HTwo == {"obj", "view"}
 View == sv
 =============================================================================
